@@ -564,6 +564,7 @@ pub fn rng(seed: u64) -> rand_chacha::ChaCha8Rng {
 
 thread_local! {
     static LAST_PANIC: std::cell::RefCell<Option<(String, String)>> = const { std::cell::RefCell::new(None) };
+    static IN_GUARD: std::cell::Cell<u32> = const { std::cell::Cell::new(0) };
 }
 
 static VERBOSE: AtomicBool = AtomicBool::new(false);
@@ -584,7 +585,7 @@ pub fn install_panic_hook() {
         } else {
             "<non-string panic>".into()
         };
-        if VERBOSE.load(Ordering::SeqCst) {
+        if VERBOSE.load(Ordering::SeqCst) || IN_GUARD.with(|g| g.get()) == 0 {
             eprintln!("[panic] {loc}: {msg}");
         }
         LAST_PANIC.with(|p| *p.borrow_mut() = Some((loc, msg)));
@@ -638,7 +639,10 @@ pub fn short_loc(file: &str) -> String {
 /// Run `f`, converting a panic into a `Fail` with signature `panic@<entry>:<file>:<msg>`
 pub fn guard<T>(entry: &str, f: impl FnOnce() -> T) -> Result<T, Fail> {
     LAST_PANIC.with(|p| *p.borrow_mut() = None);
-    match std::panic::catch_unwind(std::panic::AssertUnwindSafe(f)) {
+    IN_GUARD.with(|g| g.set(g.get() + 1));
+    let res = std::panic::catch_unwind(std::panic::AssertUnwindSafe(f));
+    IN_GUARD.with(|g| g.set(g.get() - 1));
+    match res {
         Ok(v) => Ok(v),
         Err(_) => {
             let (loc, msg) = LAST_PANIC
